@@ -279,6 +279,11 @@ func (c *Collector) Report(t Fataler, sig, detail string, replay any) bool {
 		c.violations = append(c.violations, Violation{sig, detail, replay})
 	}
 	c.mu.Unlock()
+	if os.Getenv("VERIF_EXPLORE") != "" {
+		// development aid: collect every distinct unlisted signature in one run
+		// instead of stopping at the first (the run still ends as a violation)
+		return true
+	}
 	c.Flush()
 	if t != nil {
 		t.Fatalf("VIOLATION sig=%s :: %s", sig, detail)
